@@ -479,16 +479,20 @@ def resolve(prog, i, nonstr_regex="str"):
             for c in tg:
                 c["custom_checks"].append(
                     {"name": d["name"] or d["method"], "pred": d["pred"],
+                     "title": "%s:%s" % (d["method"], d["pred"]),
                      "element_wise": d["element_wise"], "method": d["method"],
                      "explicit_name": d["name"] is not None,
                      "inherited": ci != i})
         elif kind == "parsers":
             for c in columns:
                 if c["name"] in d["targets"]:
-                    c["parsers"].append({"name": d["method"], "fn": d["fn"]})
+                    c["parsers"].append({"name": d["method"], "fn": d["fn"],
+                                         "title": "%s:%s" % (d["method"], d["fn"])})
         elif kind == "df_checks":
             flat["df_checks"].append(
                 {"name": d["name"] or d["method"], "pred": d["pred"],
+                 "title": None if (d["bare"] and not d["name"])
+                 else "%s:%s" % (d["method"], d["pred"]),
                  "col": d["col"], "method": d["method"],
                  "explicit_name": d["name"] is not None, "inherited": ci != i})
         else:
@@ -602,7 +606,9 @@ def build_models(prog, log=None, on_defined=None, ann_variant=0):
                         (log.append(("check", _m, cls)) if log is not None else None,
                          _p(arg))[1], d["method"])
             targets = [ns[t] if d["by"] == "field" else t for t in d["targets"]]
-            kw = {}
+            # the title identifies (method, predicate) on both sides, so that
+            # structurally equal checks with different functions stay apart
+            kw = {"title": "%s:%s" % (d["method"], d["pred"])}
             if d["name"]:
                 kw["name"] = d["name"]
             if d["element_wise"]:
@@ -616,16 +622,18 @@ def build_models(prog, log=None, on_defined=None, ann_variant=0):
             fn = method(lambda cls, arg, _p=p, _m=d["method"]:
                         (log.append(("df_check", _m, cls)) if log is not None else None,
                          _p(arg))[1], d["method"])
+            title = "%s:%s" % (d["method"], d["pred"])
             if d["name"]:
-                ns[d["method"]] = pa.dataframe_check(name=d["name"])(fn)
+                ns[d["method"]] = pa.dataframe_check(name=d["name"], title=title)(fn)
             elif d["bare"]:
                 ns[d["method"]] = pa.dataframe_check(fn)
             else:
-                ns[d["method"]] = pa.dataframe_check()(fn)
+                ns[d["method"]] = pa.dataframe_check(title=title)(fn)
         for d in c["parsers"]:
             p = parser_fn(d["fn"])
             fn = method(lambda cls, arg, _p=p: _p(arg), d["method"])
-            ns[d["method"]] = pa.parser(*d["targets"])(fn)
+            ns[d["method"]] = pa.parser(
+                *d["targets"], title="%s:%s" % (d["method"], d["fn"]))(fn)
         for d in c["df_parsers"]:
             p = df_parser_fn(d["fn"])
             fn = method(lambda cls, arg, _p=p: _p(arg), d["method"])
@@ -671,7 +679,7 @@ def build_schema(flat, backend):
         for cc in col["custom_checks"]:
             kw = {"element_wise": True} if cc["element_wise"] else {}
             checks.append(pa.Check(pred(cc["pred"], cc["element_wise"]),
-                                   name=cc["name"], **kw))
+                                   name=cc["name"], title=cc["title"], **kw))
         kw = dict(checks=checks, nullable=col["nullable"], unique=col["unique"],
                   coerce=col["coerce"], required=col["required"],
                   regex=col["regex"], name=col["name"], title=col["title"],
@@ -679,10 +687,12 @@ def build_schema(flat, backend):
                   metadata=col["metadata"])
         if backend == "pandas":
             from pandera.api.parsers import Parser
-            kw["parsers"] = [Parser(parser_fn(p["fn"]), name=p["name"])
+            kw["parsers"] = [Parser(parser_fn(p["fn"]), name=p["name"],
+                                    title=p.get("title"))
                              for p in col["parsers"]]
         columns[col["name"]] = pa.Column(dtype, **kw)
-    checks = [pa.Check(dfpred(d["pred"], d["col"]), name=d["name"])
+    checks = [pa.Check(dfpred(d["pred"], d["col"]), name=d["name"],
+                       title=d["title"])
               for d in flat["df_checks"]]
     for name, value in flat["extras"].items():
         checks.append(getattr(pa.Check, name)(mx=value["mx"]))
